@@ -21,7 +21,7 @@ def deep(d):
 PROPS = {
     "C01": dict(
         bin="c01", features=["fdiff"],
-        quick=NATIVE_Q, thorough=deep(8),
+        quick=NATIVE_Q, thorough=deep(4),
         floors={"value.ts_vsum": 100, "value.ts_kurt": 100, "value.ts_vfdiff": 50, "value.ts_fdiff": 50,
                 "null.ts_vstd": 100, "long_histories": 1},
         rule="sweep (len 0..N x window 1..len+2 x min_periods {None,0..w} x 10 null patterns, exact-grid value classes) "
